@@ -1219,6 +1219,13 @@ func (z *Decimal) setBits64(neg bool, x uint64, exp int64) *Decimal {
 	// x != 0
 	z.form = finite
 	z.mant = z.mant.setUint64(x)
+	// exp may be any int64 (NewDecimal): keep the sum below from wrapping
+	// around; the clamped values still overflow or underflow.
+	if exp > MaxExp {
+		exp = MaxExp + 1
+	} else if exp < MinExp-2*_DW {
+		exp = MinExp - 2*_DW - 1
+	}
 	z.setExpAndRound(exp+int64(len(z.mant))*_DW-dnorm(z.mant), 0)
 	return z
 }
